@@ -454,7 +454,7 @@ def execute(record, trace=False):
                     s.blocker_docs = (record.get("fe_args") or {}).get("blocker_docs", [])
                     actors.append(Blocker(s, record))
             dl = s.run_actors(actors)
-            st = dict(s.stats)
+            st = s.full_stats()
             st.update(s.k.counters)
             st["events"] = s.k.seq
             st["switches"] = s.k.switches
